@@ -221,7 +221,9 @@ func (gw *inclusiveGateway) NextAction(ctx context.Context, flow Flow) chan IAct
 		go gw.run(ctx, sender)
 	})
 
-	response := make(chan IAction)
+	// buffered: exactly one action is ever sent per request, and the flow may
+	// be gone by then (cancellation); the node must not block handing it over
+	response := make(chan IAction, 1)
 	gw.mch <- nextActionMessage{response: response, flow: flow}
 	return response
 }
